@@ -10,7 +10,7 @@ TRUSTED = [
     "translators vplib/translate/gen_keywords.py (keyword arrays, is_keyword / sql_keywords shape, valid_ident regex -> character classes, translate_ident_part shape; sqlparser's reserved lists and SQLite's own keyword table through harness c09_kw) and gen_ident_dialect.py (quote char / quoting style per dialect, generator prefixes; code text -- comments, string contents and #[cfg(prqlc_verif)] hook items blanked -- of gen_table_name, assign_names incl. the reserved set, RelVarNameAssigner, ensure_column_name, the anchor_split step, translate_select_item's alias loop; inventory of every call of the two generators and every use of reserved_table_names in prqlc/src); fail closed",
     "Model/Escape.v: hand model of sqlparser 0.60 Ident Display (EscapeQuotedString), validated exhaustively on short strings (harness `escape`)",
     "Model/SqlLex.v + Model/Ident.v reading side: standard quoted identifiers (quote doubled) and bare words; validated on SQLite by execution; MySQL/BigQuery backtick rules, case folding of the ten non-executable engines are from documentation only (upper-folding engines other than snowflake are outside the theorem)",
-    "Model/NameGen.v: hand model of NameGenerator and of every place that draws from it; compared with the inputs / outputs of every real call of those places (hooks verif:namegen, verif:pq-names, verif:ensure_column_name, verif:select_item of /repo, read through harness `log`) for the programs of the end-to-end stream; Rust's str::to_lowercase is a parameter of the model (`lower`): the runs and the instances use ASCII lower-casing, the theorems hold for every function that leaves generated names unchanged; the state of the table-name generator is not logged and is chained from event to event (nothing draws from it before assign_names); the alias of a wrapped sub-query (gen_query.rs -> gen_table_name) has no event and is observed end-to-end only",
+    "Model/NameGen.v: hand model of NameGenerator and of every place that draws from it; compared with the inputs / outputs of every real call of those places, step by step and loop by loop, with the generator states the hooks log (verif:namegen + namegen-draw + namegen-state of hooks/namegen-state.diff, verif:pq-names, verif:ensure_column_name, verif:select_item(s), verif:anchor_split; read through harness `log`) for the programs of the end-to-end stream; Rust's str::to_lowercase is a parameter of the model (`lower`): the runs and the instances use ASCII lower-casing, the theorems hold for every function that leaves generated names unchanged; which declarations / columns reach the places is taken from the events; the reserved column names are [] or the set reported by pq-names according to the flag the translator reads from the source",
     "end-to-end reference results are computed in python from the inserted marker values for a fixed set of program skeletons",
     "harness (prqlc::compile, rusqlite bundled SQLite) and python comparison code",
 ]
